@@ -579,6 +579,35 @@ def rule_stale_solver_pointer(chk, prog):
                     else:
                         r.bad("vpscConstraint->%s in %s" % (m.get("ref", "?").split("::")[-1], fn.q), fn.loc(m),
                               "reads or writes the vpsc::Constraint of an earlier projection, which that projection has freed")
+    # the same lifetime holds for the guideline variable of an AlignmentConstraint: observers that a client may call at any time must not
+    # look through it
+    cg = CallGraph(prog)
+    by_key = {f.key: f for f in prog.all_functions()}
+    vfld = "cola::AlignmentConstraint::variable"
+
+    def derefs(f):
+        for m in f.nodes():
+            if m.get("k") == "MemberExpr" and m.get("rk") == "Field" and m.get("ch"):
+                base = strip_casts(m["ch"][0])
+                if base is not None and base.get("k") == "MemberExpr" and base.get("ref") == vfld:
+                    return m
+        return None
+    for q in ("cola::SeparationConstraint::left", "cola::SeparationConstraint::right", "cola::SeparationConstraint::toString"):
+        for f in prog.fns(q):
+            if not f.body:
+                continue
+            r.count()
+            hit = None
+            for k in cg.reachable([f.key]):
+                g_ = by_key.get(k)
+                if g_ is not None and g_.body and str(g_.q).startswith("cola::"):
+                    d_ = derefs(g_)
+                    if d_ is not None:
+                        hit = (g_, d_)
+                        break
+            (r.ok if hit is None else r.bad)("observer %s" % q, hit[0].loc(hit[1]) if hit else f.where(), "" if hit is None else
+                                             "%s (callable by the client at any time) reaches %s, which reads the vpsc::Variable of an AlignmentConstraint: "
+                                             "after a layout run that variable has been freed by the projection that created it" % (q, hit[0].q))
     gen = prog.fn("cola::SeparationConstraint::generateSeparationConstraints")
     asg = [node for lhs, node, op in writes(gen) if written_field(lhs)[0] == fld]
     r.count()
